@@ -149,6 +149,17 @@ def stream_agrees(text, o, M, case, prop):
                                            "stream": short(got, 200), "parse": short(want, 200), "envelopes": [next(iter(e)) for e in envs][:5]}, case)
 
 
+def _poison(o):
+    if isinstance(o, dict):
+        for v in list(o.values()):
+            _poison(v)
+    elif isinstance(o, list):
+        for v in list(o):
+            _poison(v)
+        o.append({"location": {"line": 0, "column": 0}, "keyword": "POISON ", "keywordType": "Unknown", "text": "appended by the caller", "name": "@poison",
+                  "id": "poison", "cells": [], "value": "poison"})
+
+
 _SubBuilderClass = []
 
 
@@ -212,7 +223,13 @@ def check_doc(R, M, case, prop, reused=None):
                                          "errors": [e["message"] for e in o.errors][:3], "crash": o.tb},
                     case, mechanism=observe.f1_mechanism(o))
         return o
-    count_elements(o.ast, M)
+    try:
+        count_elements(o.ast, M)
+    except Exception as e:
+        # the returned document does not even have the shape of a Gherkin document (a child without its fields, ...)
+        M.violation(prop + ".ast", {"what": "the document returned for a well-formed text is malformed", "error": repr(e)[:200],
+                                    "first_differences": [(p, short(a, 100), short(b, 100)) for p, a, b in docmodel.diff(strip(R.ast, ids=True, locations=True), strip(o.ast, ids=True, locations=True))[:3]]}, case)
+        return o
     if prop == "C03":
         got = strip(o.ast, ids=True, locations=True)
         want = strip(R.ast, ids=True, locations=True)
@@ -238,6 +255,11 @@ def check_doc(R, M, case, prop, reused=None):
                                                 "first_differences": [(p, short(a, 120), short(b, 120)) for p, a, b in df2[:3]]}, case)
         inv = nothing_invented(o.ast, R.text)
         M.count("G9.evaluated")
+        if reused is None:
+            # the caller owns what parse() returned: whatever he does to it (here: something appended to every list) must
+            # never show up in a document returned later — the comparisons of the following documents would report it
+            _poison(o.ast)
+            M.count("returned_documents_poisoned")
         if inv:
             M.violation("G9", {"what": "AST carries text that does not occur in the source", "items": inv[:3]}, case)
     elif prop == "C04":
